@@ -496,3 +496,29 @@ def irreducible_queries(g: G) -> Iterator[tuple]:
         if len(districts(remove_nodes(g, x))) != 1:
             continue
         yield x, y
+
+
+def line4_queries(g: G) -> Iterator[tuple]:
+    """(X, Y) whose first ID step is line 4 with at least two districts of G minus X that are not districts of G.
+
+    An(Y) = V (Y contains every sink), line 3 adds nothing, and G minus X splits into >= 2 districts of which at least
+    two are proper parts of districts of G: the estimand is then a product of >= 2 sub-results that each go through
+    line 7 (or fail on a hedge), the shape in which sorting keys of several nested sums meet in one product.
+    """
+    nodes = g.nodes
+    ds = set(districts(g))
+    has_child = {a for a, _ in g.di}
+    sinks = {v for v in nodes if v not in has_child}
+    for x in subsets(nodes, 1):
+        if set(x) & sinks or len(x) == len(nodes):
+            continue
+        if sum(1 for s in districts(remove_nodes(g, x)) if s not in ds) < 2:
+            continue
+        gx = remove_in_edges(g, x)
+        rest = [v for v in nodes if v not in x]
+        for y in subsets(rest, 1):
+            if not sinks <= set(y):
+                continue
+            if set(ancestors_inc(gx, y)) | set(x) != set(nodes):
+                continue
+            yield x, y
